@@ -33,3 +33,12 @@ pub fn set_ryu_choice(i: usize) {
 pub fn ryu_format_finite<F: ryu::Float>(_b: &mut ryu::Buffer, _f: F) -> &str {
     RYU_TEXTS[unsafe { RYU_CHOICE }]
 }
+
+/// `alloc::alloc::realloc` for the inbound harnesses: the receive buffer is created with its
+/// final capacity (`MAX + 2·STEP`), so growing it never reallocates; a path that would reallocate
+/// is outside the bound and cut. (A reallocation of symbolic size made CBMC's encoding explode.)
+#[cfg(kani)]
+pub unsafe fn no_realloc(_ptr: *mut u8, _layout: core::alloc::Layout, _new_size: usize) -> *mut u8 {
+    kani::assume(false);
+    core::ptr::null_mut()
+}
